@@ -72,6 +72,10 @@ pub struct Parts { pub status: StatusCode, pub headers: HeaderMap }
 pub struct HttpResponse<T> { pub head: Parts, pub body: T }
 impl<T> HttpResponse<T> {
     pub fn into_parts(self) -> (r: (Parts, T)) ensures r.0 == self.head, r.1 == self.body { (self.head, self.body) }
+    pub fn headers(&self) -> (r: &HeaderMap) ensures *r == self.head.headers { &self.head.headers }
+    pub fn status(&self) -> (r: StatusCode) ensures r == self.head.status { self.head.status }
+    pub fn body(&self) -> (r: &T) ensures *r == self.body { &self.body }
+    pub fn into_body(self) -> (r: T) ensures r == self.body { self.body }
 }
 /// http::Request<hyper::Body> as put on the wire: opaque, with the views contracts need
 #[verifier::external_body] pub struct HttpRequestMsg { _p: u8 }
